@@ -163,6 +163,8 @@ func C02(p *engine.Prog, r *engine.Report) {
 	gasLimitTestsAgreeRule(p, r, "C02-R7")
 	// ---------------- R9: the builder's dry run leaves no trace; what it sends decodes to what it built
 	dryRunNeutralRule(p, r, "C02-R9")
+	signChecksCompleteRule(p, r, "C02-R9")
+	c07R5(p, r, "C02-R9")
 	importRules(p, r, "C14", map[string]string{"C14-R10": "C02-R7"})
 	importRules(p, r, "C18", map[string]string{"C18-R1": "C02-R9", "C18-R2": "C02-R9"})
 	// ---------------- R8: what the builder applies is what it includes
